@@ -419,9 +419,23 @@ func (p *Pollard) Verify(delHashes []Hash, proof Proof, remember bool) error {
 			"but have %d deletions", len(delHashes))
 	}
 
+	// Each calculated root must be matched against the root of the tree that
+	// the targets are actually in, not against any root with the same hash.
+	expectedIndexes, err := targetRootIndexes(p.NumLeaves, proof.Targets)
+	if err != nil {
+		return err
+	}
+	if len(expectedIndexes) != len(rootCandidates) ||
+		len(p.Roots) != int(numRoots(p.NumLeaves)) {
+
+		return fmt.Errorf("Pollard.Verify fail. Targets are in %d trees but "+
+			"calculated %d roots", len(expectedIndexes), len(rootCandidates))
+	}
+
 	rootMatches := 0
 	for i := range p.Roots {
 		if len(rootCandidates) > rootMatches &&
+			len(p.Roots)-(i+1) == expectedIndexes[rootMatches] &&
 			p.Roots[len(p.Roots)-(i+1)].data == rootCandidates[rootMatches] {
 			rootMatches++
 		}
